@@ -72,7 +72,7 @@ class VttContext:
         FontStyleType.italic
       ],
       StyleProperties.TextDecoration: [
-        TextDecorationType.underline
+        # Every values: `TextDecorationType.underline` is a field default (None), which matches no value
       ],
       StyleProperties.Color: [],
       StyleProperties.BackgroundColor: []
